@@ -135,7 +135,17 @@ fn shared_delegate(out: &mut Vec<DetCase>) {
 				// bridge flag on every second one, the others are found by the signature rule
 				jar[hi].methods.push(meth(ACC_PUBLIC | ACC_SYNTHETIC | if k % 2 == 0 { ACC_BRIDGE } else { 0 }, "m", "(Ljava/lang/Object;)V", Some(vec![inv(kind, "A", "m", "(LI;)V")])));
 			}
-			out.push(DetCase { label: format!("bridges in {} share the delegate A.m(LI;)V, jar order {}", hs.join(","), order.join(",")), g: JarGen { classes: jar, libs: vec![] }, maps: vec![] });
+			// every holder class has a row; the bridge key is named in A only (inherited by B and C), D names it itself;
+			// a second set with rows for the holders only and no calamus renaming
+			let bd = "(Ljava/lang/Object;)V"; let sd = "(LI;)V";
+			let ns_c = vec![s("official"), s("intermediary")]; let ns_n = vec![s("intermediary"), s("named")];
+			let maps = vec![
+				(MMappings { ns: ns_c.clone(), doc: None, classes: vec![mclass("A", "net/C_1", vec![mmeth(bd, "m", "m_1"), mmeth(sd, "m", "m_3")]), mclass("B", "net/C_2", vec![]), mclass("C", "net/C_3", vec![]), mclass("D", "net/C_4", vec![mmeth(bd, "m", "m_9")]), mclass("I", "net/C_5", vec![])] },
+				 MMappings { ns: ns_n.clone(), doc: None, classes: vec![mclass("net/C_1", "pkg/Base", vec![mmeth(bd, "m_1", "accept")]), mclass("net/C_2", "pkg/Derived", vec![]), mclass("net/C_3", "pkg/Leaf", vec![]), mclass("net/C_4", "pkg/Other", vec![mmeth(bd, "m_9", "take")])] }),
+				(MMappings { ns: ns_c.clone(), doc: None, classes: vec![] },
+				 MMappings { ns: ns_n.clone(), doc: None, classes: hs.iter().map(|h| mclass(h, h, if *h == "A" { vec![mmeth(bd, "m", "accept")] } else { vec![] })).collect() }),
+			];
+			out.push(DetCase { label: format!("bridges in {} share the delegate A.m(LI;)V, jar order {}", hs.join(","), order.join(",")), g: JarGen { classes: jar, libs: vec![] }, maps });
 		}
 	}
 }
@@ -376,12 +386,86 @@ fn foreign_owner(out: &mut Vec<DetCase>) {
 	}
 }
 
+fn mmeth_opt(desc: &str, from: &str, to: Option<&str>) -> MMeth { MMeth { desc: s(desc), names: vec![Some(s(from)), to.map(s)], doc: None, params: vec![] } }
+
+/// Several bridges of ONE class invoke the same delegate: the two covariant bridges javac emits for
+/// `Integer get()` overriding `Number get()` overriding `Object get()` (and the parameter-side analogue).  Both pairs
+/// are detected, both survive `remap`, specialized_to_bridge keeps one entry; the names the mappings give the two
+/// bridges differ, one of them names the delegate.
+fn covariant_bridges(out: &mut Vec<DetCase>) {
+	for (label, d_desc, b1, b2) in [
+		("return", "()Ljava/lang/Integer;", "()Ljava/lang/Object;", "()Ljava/lang/Number;"),
+		("parameter", "(Ljava/lang/Integer;)V", "(Ljava/lang/Object;)V", "(Ljava/lang/Number;)V"),
+		("in-jar bound", "()LC;", "()Ljava/lang/Object;", "()LB;"),
+	] {
+		for swap in [false, true] {
+			for flagged in [true, false] {
+				// I declares the Object variant, A (super class of E) the other one; C extends B
+				let mut jar = vec![class("I", None, &[]), class("A", None, &[]), class("B", None, &[]), class("C", Some("B"), &[]), class("E", Some("A"), &["I"])];
+				jar[0].methods.push(meth(ACC_PUBLIC | ACC_ABSTRACT, "get", b1, None));
+				jar[1].methods.push(meth(ACC_PUBLIC, "get", b2, Some(vec![])));
+				let f = ACC_PUBLIC | ACC_SYNTHETIC | if flagged { ACC_BRIDGE } else { 0 };
+				let mut ms = vec![meth(f, "get", b1, Some(vec![inv(CallKind::Virtual, "E", "get", d_desc)])), meth(f, "get", b2, Some(vec![inv(CallKind::Virtual, "E", "get", d_desc)]))];
+				if swap { ms.reverse(); }
+				jar[4].methods.push(meth(ACC_PUBLIC, "get", d_desc, Some(vec![])));
+				jar[4].methods.extend(ms);
+				let ns_c = vec![s("official"), s("intermediary")]; let ns_n = vec![s("intermediary"), s("named")];
+				let maps = vec![
+					// the two bridge keys are named in the super types only, under different names
+					(MMappings { ns: ns_c.clone(), doc: None, classes: vec![mclass("I", "net/C_1", vec![mmeth(b1, "get", "m_1")]), mclass("A", "net/C_2", vec![mmeth(b2, "get", "m_2")]), mclass("E", "net/C_3", vec![mmeth(d_desc, "get", "m_3")])] },
+					 MMappings { ns: ns_n.clone(), doc: None, classes: vec![mclass("net/C_1", "pkg/Source", vec![mmeth(b1, "m_1", "getObject")]), mclass("net/C_2", "pkg/Base", vec![mmeth(b2, "m_2", "getNumber")]), mclass("net/C_3", "pkg/Impl", vec![])] }),
+					// no renaming; one bridge key named in E itself, the other inherited
+					(MMappings { ns: ns_c.clone(), doc: None, classes: vec![] },
+					 MMappings { ns: ns_n.clone(), doc: None, classes: vec![mclass("E", "E", vec![mmeth(b1, "get", "own")]), mclass("A", "A", vec![mmeth(b2, "get", "inherited")])] }),
+				];
+				out.push(DetCase { label: format!("bridges: two covariant bridges of one class ({label}){}{}", if swap { ", declared in the other order" } else { "" }, if flagged { "" } else { " unflagged" }), g: JarGen { classes: jar, libs: vec![] }, maps });
+			}
+		}
+	}
+}
+
+/// Entries WITHOUT a name in the target namespace (legal tiny v2: an entry that only carries a parameter name or a
+/// javadoc).  Such an entry names nothing: the lookup goes on to the super types.  Sub extends Mid extends Base, the
+/// bridge Sub.m(Object)V forwards to Sub.m(Integer)V; the real name of m(Object)V is on Base.
+fn nameless_entries(out: &mut Vec<DetCase>) {
+	let bd = "(Ljava/lang/Object;)V"; let sd = "(Ljava/lang/Integer;)V";
+	for flagged in [true, false] {
+		let mut jar = vec![class("Base", None, &[]), class("Mid", Some("Base"), &[]), class("Sub", Some("Mid"), &[])];
+		jar[0].methods.push(meth(ACC_PUBLIC, "m", bd, Some(vec![])));
+		jar[2].methods.push(meth(ACC_PUBLIC, "m", sd, Some(vec![])));
+		jar[2].methods.push(meth(ACC_PUBLIC | ACC_SYNTHETIC | if flagged { ACC_BRIDGE } else { 0 }, "m", bd, Some(vec![inv(CallKind::Virtual, "Sub", "m", sd)])));
+		let ns_c = vec![s("official"), s("intermediary")]; let ns_n = vec![s("intermediary"), s("named")];
+		let cal_full = MMappings { ns: ns_c.clone(), doc: None, classes: vec![mclass("Base", "net/C_1", vec![mmeth(bd, "m", "m_1")]), mclass("Mid", "net/C_2", vec![]), mclass("Sub", "net/C_3", vec![mmeth(sd, "m", "m_2")])] };
+		let with_param = |mut me: MMeth| { me.params.push(MParam { index: 1, names: vec![None, Some(s("value"))], doc: None }); me.doc = Some(s("doc")); me };
+		let mut maps = vec![];
+		// (a) named: the bridge's own class has a name-less entry for the bridge, the name is on Base
+		maps.push((cal_full.clone(), MMappings { ns: ns_n.clone(), doc: None, classes: vec![mclass("net/C_1", "pkg/Base", vec![mmeth(bd, "m_1", "setData")]), mclass("net/C_2", "pkg/Mid", vec![]), mclass("net/C_3", "pkg/Sub", vec![with_param(mmeth_opt(bd, "m_1", None))])] }));
+		// (b) named: the name-less entry sits in the class between
+		maps.push((cal_full.clone(), MMappings { ns: ns_n.clone(), doc: None, classes: vec![mclass("net/C_3", "pkg/Sub", vec![]), mclass("net/C_2", "pkg/Mid", vec![mmeth_opt(bd, "m_1", None)]), mclass("net/C_1", "pkg/Base", vec![mmeth(bd, "m_1", "setData")])] }));
+		// (c) named: name-less entries in Sub AND Mid, and one for the delegate in Sub (replaced: info only, parameters stay)
+		maps.push((cal_full.clone(), MMappings { ns: ns_n.clone(), doc: None, classes: vec![mclass("net/C_1", "pkg/Base", vec![mmeth(bd, "m_1", "setData")]), mclass("net/C_2", "pkg/Mid", vec![mmeth_opt(bd, "m_1", None)]), mclass("net/C_3", "pkg/Sub", vec![mmeth_opt(bd, "m_1", None), with_param(mmeth_opt(sd, "m_2", None))])] }));
+		// (d) calamus: the bridge's own class has an entry without intermediary name for the bridge; the intermediary name is on Base
+		maps.push((MMappings { ns: ns_c.clone(), doc: None, classes: vec![mclass("Base", "net/C_1", vec![mmeth(bd, "m", "m_1")]), mclass("Mid", "net/C_2", vec![mmeth_opt(bd, "m", None)]), mclass("Sub", "net/C_3", vec![mmeth_opt(bd, "m", None), mmeth(sd, "m", "m_2")])] },
+			MMappings { ns: ns_n.clone(), doc: None, classes: vec![mclass("net/C_1", "pkg/Base", vec![mmeth(bd, "m_1", "setData")]), mclass("net/C_3", "pkg/Sub", vec![])] }));
+		// (e) calamus: the DELEGATE has an entry without intermediary name: it keeps its official name
+		maps.push((MMappings { ns: ns_c.clone(), doc: None, classes: vec![mclass("Base", "net/C_1", vec![mmeth(bd, "m", "m_1")]), mclass("Sub", "net/C_3", vec![mmeth_opt(sd, "m", None)])] },
+			MMappings { ns: ns_n.clone(), doc: None, classes: vec![mclass("net/C_1", "pkg/Base", vec![mmeth(bd, "m_1", "setData")]), mclass("net/C_3", "pkg/Sub", vec![mmeth(sd, "m", "old")])] }));
+		// (f) name-less everywhere: the bridge has no name at all, the delegate's named name is the bridge's intermediary name
+		maps.push((cal_full.clone(), MMappings { ns: ns_n.clone(), doc: None, classes: vec![mclass("net/C_1", "pkg/Base", vec![mmeth_opt(bd, "m_1", None)]), mclass("net/C_3", "pkg/Sub", vec![mmeth_opt(bd, "m_1", None)])] }));
+		// (g) a name-less CLASS row for the bridge's class (no named class name): its member entries do not count either
+		maps.push((cal_full.clone(), MMappings { ns: ns_n.clone(), doc: None, classes: vec![mclass("net/C_1", "pkg/Base", vec![mmeth(bd, "m_1", "setData")]), MClass { names: vec![Some(s("net/C_3")), None], doc: None, fields: vec![], methods: vec![mmeth(bd, "m_1", "shadow")] }] }));
+		out.push(DetCase { label: format!("bridge: name-less entries on the way to the inherited name{}", if flagged { "" } else { " (unflagged)" }), g: JarGen { classes: jar, libs: vec![] }, maps });
+	}
+}
+
 pub fn det_cases() -> Vec<DetCase> {
 	let mut out = vec![];
 	diamonds(&mut out);
 	arrays(&mut out);
 	shared_delegate(&mut out);
 	two_supers(&mut out);
+	covariant_bridges(&mut out);
+	nameless_entries(&mut out);
 	indy(&mut out);
 	invoke_kinds(&mut out);
 	arities(&mut out);
